@@ -6,6 +6,7 @@ package main
 
 import (
 	"encoding/json"
+	"flag"
 	"fmt"
 	"os"
 	"path/filepath"
@@ -23,6 +24,7 @@ type job struct {
 	oracles []func(*Exec) []verdict
 	maxExec int64
 	big     bool // explored by all shards (subtree sharding)
+	conform bool // outcome set is checked against the free-running twin (vexec and real sh)
 }
 
 type replayT struct {
@@ -35,8 +37,17 @@ var allOracles = map[string]func(*Exec) []verdict{
 	"C01": oracleC01, "C02": oracleC02, "C03": oracleC03, "C15": oracleC15, "C04": oracleC04, "C10": oracleC10, "C05": oracleC05, "C08": oracleC08,
 }
 
+var (
+	flagFree = flag.String("free", "", "free-running twin: run this configuration file without the cooperative runtime and print the outcome")
+	flagReal = flag.Bool("real", false, "with -free: steps are real sh child processes")
+)
+
 func main() {
 	fl := vlib.ParseFlags()
+	if *flagFree != "" {
+		freeMain(*flagFree, *flagReal, fl.Work)
+		return
+	}
 	if pf := os.Getenv("VERIF_E1_CPUPROFILE"); pf != "" {
 		f, _ := os.Create(pf)
 		pprof.StartCPUProfile(f)
@@ -56,11 +67,19 @@ func main() {
 		defer func() { fmt.Fprintln(os.Stderr, "branch stats:", vrt.BranchStats) }()
 	}
 
+	confEvery := 200
+	if fl.Thorough() {
+		confEvery = 40
+	}
 	var jobs []job
 	add := func(cfg *Config, bound int, maxExec int64, oracles ...string) {
 		c := *cfg
 		c.Bound = bound
 		j := job{cfg: &c, maxExec: maxExec, big: bound > 0 || c.Agent}
+		// conformance: every 40th small program of a family and the buffered variants of the sharp list
+		if !c.Agent && !c.Stop && c.Recorded == nil && c.TimeoutMs == 0 && !c.DoneSync && !c.DoneNil && (bound == 0 && len(jobs)%confEvery == 7) {
+			j.conform = true
+		}
 		for _, o := range oracles {
 			j.oracles = append(j.oracles, allOracles[o])
 		}
@@ -127,7 +146,11 @@ func main() {
 			if n == 3 {
 				sc = scriptsReduced
 			}
-			programs(famOpts{n: n, scripts: sc, maxActive: []int{0, 1}, delays: []int{0}, intervalMs: 1000, coAll: false, maxRetry: 1}, func(c *Config) {
+			ma := []int{0}
+			if thorough {
+				ma = []int{0, 1}
+			}
+			programs(famOpts{n: n, scripts: sc, maxActive: ma, delays: []int{0}, intervalMs: 1000, coAll: false, maxRetry: 1}, func(c *Config) {
 				cc := *c
 				cc.Agent, cc.Observe, cc.CleanupMs = true, true, 10000
 				cc.Handlers = map[string]string{"onExit": "ok", "onFailure": "ok"}
@@ -135,7 +158,7 @@ func main() {
 			})
 		}
 		for i, c := range sharp() {
-			if i > 3 && !thorough {
+			if i > 1 && !thorough {
 				break
 			}
 			cc := *c
@@ -182,6 +205,7 @@ func main() {
 		cfgKey := j.cfg.Key()
 		nontrivial := false
 		perCfgOutcomes := map[string]struct{}{}
+		perCfgKeys := map[string]struct{}{}
 		ex.Each(func(prefix []int) (*recChooser, bool) {
 			x, ch := r.once(j.cfg, prefix, nil)
 			if !ex.Mine(prefix) {
@@ -213,6 +237,9 @@ func main() {
 					ok = false
 				}
 			}
+			if j.conform && x.Returned {
+				perCfgKeys[x.outcomeKey()] = struct{}{}
+			}
 			key := x.finalsString() + "|" + summarize(x)
 			if _, seen := perCfgOutcomes[key]; !seen {
 				perCfgOutcomes[key] = struct{}{}
@@ -231,6 +258,25 @@ func main() {
 		})
 		if os.Getenv("VERIF_E1_PROGRESS") != "" {
 			fmt.Fprintf(os.Stderr, "job %d %s: execs=%d decisions=%d states=%d elapsed=%v\n", i, j.cfg, ex.Execs, ex.Decisions, len(r.states), time.Since(jobStart))
+		}
+		if j.conform && !ex.Capped && os.Getenv("VERIF_HELPER_E1_FREE") != "" && (sub == "C01" || sub == "C02" || sub == "C03" || sub == "C15") {
+			for _, real := range []bool{false, true} {
+				okc, key, err := conform(j.cfg, perCfgKeys, fl.Work, real)
+				kind := map[bool]string{false: "scripted executor, free-running", true: "real sh processes, free-running"}[real]
+				switch {
+				case err != nil:
+					res.CheckError("conformance (%s) of %s: %v", kind, j.cfg, err)
+				case !okc:
+					var have []string
+					for k := range perCfgKeys {
+						have = append(have, k)
+					}
+					res.CheckError("conformance (%s): the free run of %s ended in an outcome the explorer did not enumerate:\n  free: %s\n  explored (%d): %s", kind, j.cfg, key, len(have), strings.Join(have, "\n            "))
+				default:
+					res.Validated++
+					res.Count("conformance_runs_"+map[bool]string{false: "vexec", true: "sh"}[real], 1)
+				}
+			}
 		}
 		if ex.Capped {
 			res.Cap(fmt.Sprintf("execution cap per configuration hit (PB(%d) configurations only)", j.cfg.Bound))
